@@ -2260,6 +2260,11 @@ func (tc *typechecker) checkDefault(expr *ast.Default, show bool) typeInfoPair {
 						Properties: propertyUntyped,
 					}
 				}
+			} else {
+				// Check the identifier as any other identifier, so that it
+				// is marked as used and, if it is referenced in a function
+				// or macro, it is added to its upvars.
+				tis[0] = tc.checkIdentifier(n, true)
 			}
 		}
 
